@@ -28,8 +28,9 @@ def ref_integral(a, k, m1, m2):
     return ((c * m2d.ln()).exp() - (c * m1d.ln()).exp()) / c
 
 
-def amp(a, k, m1, m2):
-    """amplification of rounding error through the subtraction (generic branch)"""
+def amp(a, k, m1, m2, ref=None):
+    """amplification of rounding error through the subtraction (generic branch); with `ref` (the exact integral) the true
+    difference |c| * ref is used instead of the float difference, which is itself noise when the powers agree to the last bit"""
     c = a + k
     if c == 0:
         r = m2 / m1
@@ -39,6 +40,8 @@ def amp(a, k, m1, m2):
     except OverflowError:
         return 1.0
     d = abs(p2 - p1)
+    if ref is not None:
+        d = min(d, abs(c) * float(ref)) if d > 0 else abs(c) * float(ref)
     big = max(abs(p2), abs(p1)) * max(1.0, abs(c * math.log(max(m2, m1))), abs(c * math.log(min(m1, m2))))
     return big / d if d > 0 else float("inf")
 
@@ -107,7 +110,7 @@ def oracle_scalar(chk, case, out, res):
             chk.fail("degenerate or inverted interval yields NaN", case, out)
         return
     ref = ref_integral(a, k, m1, m2)
-    A = amp(a, k, m1, m2)
+    A = amp(a, k, m1, m2, ref)
     c = a + k
     if math.isnan(out):
         # allowed only if the true integral is (within rounding) below the resolution... the property allows no NaN
